@@ -51,6 +51,7 @@ SYN_DEPLOY = [
     {"pat": "commit", "timeout": 77, "answers": [], "kids": []},
     # rules that apply only to commands whose patching rule carries one of the listed contexts (%ifcontext: ANY of them)
     {"pat": "crypto ~", "timeout": 60, "answers": ["yes", "2048"], "ifctx": ["mode:a", "mode:b"], "kids": []},
+    {"pat": "crypto ~", "timeout": 15, "answers": [], "kids": []},        # the same command outside those contexts
     {"pat": "bgp *", "timeout": 33, "answers": [], "kids": [
         {"pat": "shutdown", "timeout": 21, "answers": ["Y"], "ifctx": ["kind:lag", "kind:phys"], "kids": []},
         {"pat": "shutdown", "timeout": 5, "answers": [], "kids": []}]},
@@ -352,6 +353,18 @@ def run(ctx):
         syn = rnd.random() < 0.5
         rulebook_provider_connector._cache = syn_provider if syn else shipped_provider
         emit("rnd-%s" % vend, hw, vclass, build_pt(rtree(0)), dc, df, drj if syn else [], syn, False)
+    # targeted: a context-bound deploy rule followed by a plain rule for the same command, the command issued in and outside the context
+    # (top level and inside a block)
+    rulebook_provider_connector._cache = syn_provider
+    for vend, (models, vclass) in VENDORS.items():
+        hw = E.hwview(models[0], "")
+        for cx in ({}, {"kind": "lag"}, {"kind": "svi"}, {"mode": "a"}, {"mode": "b", "kind": "phys"}, {"mode": "c"}):
+            tj = [{"row": ["crypto", "key", "gen"], "block": False, "kids": [], "ctx": cx},
+                  {"row": ["bgp", "1"], "block": True, "kids": [{"row": ["shutdown"], "block": False, "kids": [], "ctx": cx},
+                                                               {"row": ["peer", "1"], "block": False, "kids": []}]},
+                  {"row": ["interface", "x"], "block": True, "kids": [{"row": ["b", "1"], "block": False, "kids": []}]}]
+            for dc, df in ((True, True), (False, False)):
+                emit("ctx-%s" % vend, hw, vclass, build_pt(tj), dc, df, drj, True, False)
     rulebook_provider_connector._cache = shipped_provider
     slim = [{k: v for k, v in r.items() if k not in ("hw", "exc")} for r in recs]
     verd = ctx.judge("trace/Trace_Session.tla", "trace/Trace.cfg", slim, shards=16)
